@@ -98,10 +98,7 @@ Theorem update_metadata_times :
     linkmotime (update_metadata (Some m) new now) = Some now /\
     (linkcrtime m = Some t -> linkcrtime (update_metadata (Some m) new now) = Some t) /\
     md_ok (update_metadata (Some m) new now) = true.
-Proof.
-  exact (fun m new now t => conj (update_linkmotime (Some m) new now)
-                                 (conj (update_linkcrtime m new now t) (update_md_ok (Some m) new now))).
-Qed.
+Proof. exact update_metadata_all. Qed.
 Print Assumptions update_metadata_times.
 
 (* ---- non-vacuity: a history computed inside Coq ---- *)
